@@ -139,6 +139,11 @@ def directed_pool():
     P.append('[' + 'a' * 300)
     P.append('a' * 600)
     P.append('(((((a{3}){3}){3}){3}){3})')
+    P.append('(((a{128}){128}){128}){128}')            # instruction-count estimate exceeds INT_MAX
+    P.append('((((a{128}){128}){128}){128}){128}')
+    P.append('(((a{128}){128}){128}){16}')
+    P.append('(((a{0,128}){0,128}){0,128}){0,128}')
+    P.append('(((a{128}){128}){128})' * 2100)      # each factor saturates the estimate; their sum must not overflow either
     return [p.encode('latin-1') for p in P]
 
 
